@@ -11,11 +11,12 @@ def run(tier, seed):
     ck.encode("stabilizer_circuits.get_readout_circuit", "stabilizer_circuits._get_preparation_circuit_modulo_phase",
               "lc_classes.determine_lc_class*", "circuit_lookup.stabilizer_circuit_lookup/parse_circuit", "graph.Graph.decompress",
               "find_local_clifford_layer.find_local_clifford_layer", "find_local_clifford_layer.local_clifford_layer_to_circuit", "f2_algebra.*")
-    ck.bounds += ["F3: n=2 every valid tableau; n=3: %s of the 64 partitions of the tableau space; signs poisoned (any read is a violation)" % ("a seeded 10 of the 512" if tier == "quick" else "all 64"),
+    ck.bounds += ["F3: n=2 every valid tableau; n=3: %s partitions of the tableau space; signs poisoned (any read is a violation)" % ("a seeded 10 of the 512" if tier == "quick" else "all 64 of 64"),
                   "per path one query over a symbolic coefficient vector: all 2^n group elements of all inputs sharing the path",
                   "Fc: n=4..6 per class graph, layer symbolic on a window, seeded basis change (as C01)"]
     ck.bounds += ["Fc0: EVERY class of EVERY configuration once (table graph, seeded concrete local-Clifford layer - thorough: one symbolic qubit for n<=5 -, seeded basis change, 2 sign vectors)"]
     ck.outside += ["n>=4: layers outside the window / arbitrary bases (lemmas L1-L4, DESIGN.md §5)"]
+    ck.assumptions += ["validity of the input is assumed through an independent Boolean spec, not through Stabilizer.validate()", "ztab gate rules (validated against qiskit on this run)"]
     jobs = pipeline.f3_jobs(tier, seed) + pipeline.fc_jobs(tier, seed) + pipeline.fc0_jobs(tier, seed)
     _pipeprop.drive(ck, tier, seed, "readout", {"C03"}, jobs)
     _pipeprop.vacuity(ck, "readout", {"C03"})
